@@ -126,6 +126,8 @@ type Rec struct {
 	// (pod names and namespaces of source and destination swapped in position,
 	// the statistics first): templates of different nodes need not agree
 	AltOrder bool
+	// OmitStart: the record lacks flowStartSeconds (aggregation of such a record fails)
+	OmitStart bool
 }
 
 func ie(name string, ent uint32) *entities.InfoElement {
@@ -202,6 +204,15 @@ func Elements(r Rec) []entities.InfoElementWithValue {
 			ent = registry.IANAReversedEnterpriseID
 		}
 		els = append(els, entities.NewUnsigned64InfoElement(ie(name, ent), r.Stat[i]))
+	}
+	if r.OmitStart {
+		var kept []entities.InfoElementWithValue
+		for _, e := range els {
+			if e.GetInfoElement().Name != "flowStartSeconds" {
+				kept = append(kept, e)
+			}
+		}
+		els = kept
 	}
 	if r.AltOrder {
 		pos := map[string]int{}
